@@ -765,6 +765,56 @@ def observe_pair(ctx, s, o, depth):
 # is untouched.  In-package m.py/m.pyi in both orders (also against the model), and the package's own __init__ pair
 # with the stubs inside the package or in pkg-stubs.
 # ----------------------------------------------------------------------------------------------------------------------
+def _alias_objects(obj, out, seen):
+    """Every alias object reachable by containment (never through an alias), without triggering any resolution."""
+    if id(obj) in seen:
+        return out
+    seen.add(id(obj))
+    for m in list(obj.members.values()):
+        if m.is_alias:
+            out.append(m)
+        else:
+            _alias_objects(m, out, seen)
+    return out
+
+
+class merge_watch:
+    """Attribute alias resolution to MERGING itself (the property: "merging never resolves aliases"): wraps the merge_stubs
+    entry points used by the loader and by set_member and records the aliases of the two merged trees, and of the
+    packages they live in, whose `resolved` flag turns true during a merge_stubs call.  Other loader phases
+    (expand_exports evaluating `module.modules`, wildcard expansion) may resolve aliases: that is not merging."""
+
+    def __enter__(self):
+        import _griffe.loader as L
+        import _griffe.mixins as X
+        self.mods, self.orig, self.resolved = (L, X), (L.merge_stubs, X.merge_stubs), []
+        watch = self
+
+        def wrap(orig):
+            def merge_stubs(mod1, mod2):
+                roots = [mod1, mod2]
+                for m in (mod1, mod2):
+                    try:
+                        roots.append(m.package)
+                    except Exception:  # noqa: BLE001  (a parentless stub module has no package)
+                        pass
+                seen, aliases = set(), []
+                for r in roots:
+                    _alias_objects(r, aliases, seen)
+                before = [a for a in aliases if not a.resolved]
+                try:
+                    return orig(mod1, mod2)
+                finally:
+                    watch.resolved += [a.path + " -> " + a.target_path for a in before if a.resolved]
+            return merge_stubs
+        L.merge_stubs, X.merge_stubs = wrap(self.orig[0]), wrap(self.orig[1])
+        return self
+
+    def __exit__(self, *exc):
+        self.mods[0].merge_stubs, self.mods[1].merge_stubs = self.orig
+        return False
+
+
 def all_unresolved(obj, skip=()):
     bad = []
     for n, m in obj.members.items():
@@ -808,7 +858,7 @@ def run_stub_import_case(ctx, idx, py, pyi, use_model=True):
         t_model[MEM] = [[n, (["alias_to", t[1], t[2], impl_by[n]] if t[0] == "alias" and n in shared else t)] for n, t in t_mpy[MEM]]
         model_r = ctx.model([["set_member", [False, t_model], [True, t_mpyi]], ["set_member", [True, t_mpyi], [False, t_model]]]) if use_model else None
 
-        def judge(label, mod, impl_mod, skip=()):
+        def judge(label, mod, impl_mod, skip=(), watched=None):
             got = abstract(mod)
             got[MEM] = [[n, t] for n, t in got[MEM] if n not in skip]
             got = norm_result(got)
@@ -820,7 +870,8 @@ def run_stub_import_case(ctx, idx, py, pyi, use_model=True):
                 ctx.property_failure({**case, "placement": label},
                                      {"merged_an_object_the_stubs_only_import_or_lost_something": [list(map(str, x)) for x in diffs[:10]],
                                       "merged": got, "expected": expected})
-            res = all_unresolved(mod, skip)
+            # aliases here CAN resolve (their targets are loaded): only resolution during a merge_stubs call counts
+            res = watched.resolved if watched is not None else all_unresolved(mod, skip)
             if res:
                 ctx.property_failure({**case, "placement": label}, {"aliases_resolved_by_merging": res[:10]})
             after = norm_result(abstract(impl_mod))
@@ -837,9 +888,9 @@ def run_stub_import_case(ctx, idx, py, pyi, use_model=True):
             write(d / "P" / "pkg" / "m.pyi", m_pyi)
             label = f"inpkg({order[2]} first)"
             try:
-                with walk_listed(order):
+                with walk_listed(order), merge_watch() as w:
                     pkg = griffe.load("pkg", search_paths=[str(d / "P")], allow_inspection=False)
-                got = judge(label, pkg.members["m"], pkg.members["a_impl"])
+                got = judge(label, pkg.members["m"], pkg.members["a_impl"], watched=w)
             except Exception as e:  # noqa: BLE001
                 ctx.property_failure({**case, "placement": label}, {"raised": type(e).__name__, "expected": "no exception"})
                 continue
@@ -864,8 +915,9 @@ def run_stub_import_case(ctx, idx, py, pyi, use_model=True):
             paths = [str(d / "T" / "site")]
         label = "package __init__ + " + ("pkg-stubs" if stubs_pkg else "__init__.pyi")
         try:
-            top = griffe.load("pkg", search_paths=paths, allow_inspection=False, find_stubs_package=True, try_relative_path=False)
-            judge(label, top, top.members["a_impl"], skip=("a_impl",))
+            with merge_watch() as w:
+                top = griffe.load("pkg", search_paths=paths, allow_inspection=False, find_stubs_package=True, try_relative_path=False)
+            judge(label, top, top.members["a_impl"], skip=("a_impl",), watched=w)
             ctx.observe("outcome:stubs-import-loaded-objects", "ok")
         except Exception as e:  # noqa: BLE001
             ctx.property_failure({**case, "placement": label}, {"raised": type(e).__name__, "expected": "no exception"})
